@@ -26,5 +26,68 @@ Script == << <<ScriptRow(1, {F1}), ScriptRow(2, {F1}), ScriptRow(3, {F1})>>,
              <<ScriptRow(4, Fields), ScriptRow(5, Fields)>>,
              <<ScriptRow(6, Fields \ {F1}), ScriptRow(2, Fields)>> >>
 ScriptBatches == IF nw < Len(Script) THEN {Script[nw + 1]} ELSE {}
+
+\* ---- scheduled generation (C03): the action kinds of a behaviour are fixed, the data is random ----------
+\* The k-th write draws its timestamps from the k-th block of Times (BlockW consecutive timestamps), so that
+\* successive flushes yield ordered files; one row in four goes anywhere (an out-of-order row, or a row that
+\* meets an existing key: equal timestamps in an ordered and an out-of-order file). Rows carry random field
+\* subsets (columns present in some files only, sparse columns, segments without a value for a column) and
+\* random series of either measurement (series present in some of the files only).
+BlockW == 2
+NBlocks == (Cardinality(Times) + BlockW - 1) \div BlockW
+TimesSeq == SortSeq(SetToSeq(Times), LAMBDA a, b : a < b)
+BlockTimes(b) == {TimesSeq[i] : i \in {j \in 1..Len(TimesSeq) : (j - 1) \div BlockW = b % NBlocks}}
+BlockRow(x, b) == [k |-> <<RandomElement(Series),
+                           IF RandomElement(1..4) = 1 THEN RandomElement(Times) ELSE RandomElement(BlockTimes(b))>>,
+                   fs |-> RandomElement((SUBSET Fields) \ {{}})]
+BlockBatch(x, b, j) == LET n == RandomElement(1..MaxBatch) IN TLCEval([i \in 1..n |-> BlockRow(x + i, b)])
+BlockBatches == {BlockBatch(nv, nw, j) : j \in 1..2}
+\* dense variant: every series gets a row with every field at every timestamp of the block (chunks of
+\* several segments without a single null)
+DenseBatch(x, b) == LET ss == SetToSeq(Series)
+                        ts == SetToSeq(BlockTimes(b))
+                    IN TLCEval([i \in 1..(Len(ss) * Len(ts)) |->
+                          [k |-> <<ss[((i - 1) % Len(ss)) + 1], ts[((i - 1) \div Len(ss)) + 1]>>, fs |-> Fields]])
+DenseBatches == {DenseBatch(nv, nw)}
+
+\* merge variant: the first MergeFiles writes give one series a row in the first half of successive blocks (one
+\* ordered file each), the later writes scatter rows of that series over all those blocks (out-of-order rows
+\* that interleave with several ordered files, at new and at existing timestamps), mostly in a single column
+MergeFiles == 3
+MainS == CHOOSE s \in Series : s \notin Mst2
+NarrowFs(x) == IF RandomElement(1..3) = 1 THEN RandomElement((SUBSET Fields) \ {{}}) ELSE {SetToSeq(Fields)[1]}
+FirstOf(b) == Min(BlockTimes(b))
+MergeBatch(x, j) ==
+  IF nw < MergeFiles
+    THEN TLCEval([i \in 1..(IF RandomElement(1..3) = 1 THEN 2 ELSE 1) |->
+            [k |-> <<IF i = 1 THEN MainS ELSE RandomElement(Series), FirstOf(nw)>>, fs |-> NarrowFs(x + i)]])
+    ELSE LET n == RandomElement(2..MaxBatch)
+         IN TLCEval([i \in 1..n |->
+               [k |-> <<MainS, RandomElement(UNION {BlockTimes(b) : b \in 0..(MergeFiles - 1)})>>, fs |-> NarrowFs(x + i)]])
+MergeBatches == {MergeBatch(nv, j) : j \in 1..2}
+
+\* schedules: W write, F flush, L level compaction, C full compaction, M merge, D down-sample, R reopen
+\* levels 0 -> 1 -> 2 with groups of two
+SchedLevels  == <<"W","F","W","F","L","W","F","W","F","L","L","W","F","M","W","F","L","C">>
+\* groups of three, merge before and after
+SchedGroup3  == <<"W","F","W","F","W","F","L","W","F","M","W","F","W","F","L","C","R","W","F","M">>
+\* full compaction next to level compaction, out-of-order rows in between
+SchedFull    == <<"W","F","W","F","W","F","C","W","F","M","W","F","L","W","F","C","M","R">>
+\* down-sample of a compacted / merged / multi-file shard, then a restart
+SchedDS1     == <<"W","F","W","F","M","C","D","R">>
+SchedDS2     == <<"W","F","W","F","W","F","M","D","R">>
+SchedDS3     == <<"W","F","W","F","L","W","F","M","D","R">>
+SchedDSDense == <<"W","F","W","F","W","F","C","D","R">>
+\* three ordered files of a series, out-of-order rows across all of them, merge; once more after a level compaction
+SchedMerge   == <<"W","F","W","F","W","F","W","F","M","W","F","L","W","F","M","R">>
+
+SimCalls(x) == TLCEval([f \in Fields |-> RandomElement(Calls)])
+SimCallChoices == {SimCalls(nv + j) : j \in 1..2}
+
+\* exhaustive checks: every field gets the same call
+UniformCalls == {[f \in Fields |-> c] : c \in Calls}
+
 Export == (Len(hist) = Depth) => PrintT(<<"TRACE", ToJson(hist)>>)
+\* scheduled behaviours end with their schedule
+ExportSched == (Len(hist) = Len(Sched)) => PrintT(<<"TRACE", ToJson(hist)>>)
 =============================================================================
